@@ -3,4 +3,5 @@ CONSTANTS
   Family = "sandbox"
   Depth = 3
   Rich = 1
+  Runs = 1
 CHECK_DEADLOCK FALSE
